@@ -19,6 +19,7 @@ const Property = "C12"
 //	appendSample: views[V].AppendSample(fresh stamp)
 //	append:       views[V].Append(views[W])  (skipped when channel counts differ or the source overlaps the write region)
 //	write:        Write(A fresh stamps, views[V])
+//	writeStriped: WriteStriped into views[V] (frame-aligned views only): channel ch gets A, A-1 or no (nil) samples by (ch+B) mod 3
 //	set:          views[V].SetSample(A mod Len, fresh stamp)
 //	drop:         forget views[V]
 type Op struct {
@@ -255,6 +256,54 @@ func (s *Sim) Apply(op Op) bool {
 			res.Class("mutationThroughSharedView")
 		}
 		return true
+	case "writeStriped":
+		v := s.pick(op.V)
+		if v == nil || op.A < 0 || op.A > 4096 || v.ln%v.c != 0 {
+			return false
+		}
+		in := make([][]kit.Val, v.c)
+		longest := 0
+		for ch := range in {
+			n := -1
+			switch (ch + op.B) % 3 {
+			case 0:
+				n = op.A
+			case 1:
+				n = kit.Max(op.A-1, 0)
+			}
+			if n < 0 {
+				continue
+			}
+			in[ch] = make([]kit.Val, n)
+			for i := range in[ch] {
+				in[ch][i] = s.fresh()
+			}
+			longest = kit.Max(longest, n)
+		}
+		m := kit.Min(longest, v.ln/v.c)
+		var ret int
+		if p, pv := kit.Try(func() { ret = v.buf.WriteStripedVals(in) }); p {
+			res.Failf("WriteStriped into a view with %d frames (%d ch) panicked: %v", v.ln/v.c, v.c, pv)
+			return true
+		}
+		if ret != m {
+			res.Failf("WriteStriped (longest channel %d) into a view with %d frames returned %d, want %d", longest, v.ln/v.c, ret, m)
+			return true
+		}
+		for ch := 0; ch < v.c; ch++ {
+			for i := 0; i < m; i++ {
+				if i < len(in[ch]) {
+					s.stor[v.sid][v.off+v.c*i+ch] = s.conv(in[ch][i])
+				} else {
+					s.stor[v.sid][v.off+v.c*i+ch] = s.zero
+				}
+			}
+		}
+		if m > 0 && s.sharers(v) > 0 {
+			res.Class("mutationThroughSharedView")
+		}
+		res.Class("stripedWriteInHistory")
+		return true
 	case "set":
 		v := s.pick(op.V)
 		if v == nil || v.ln == 0 || op.A < 0 {
@@ -298,6 +347,11 @@ func (s *Sim) Verify(what string) bool {
 				s.res.Failf("%s: view %d (storage %d, off %d, len %d, cap %d, %d ch) sample %d reads %s, model %s", what, vi, v.sid, v.off, v.ln, v.cp, v.c, k, got, st[v.off+k])
 				return false
 			}
+		}
+		// the readers agree with Sample
+		if rd, n := v.buf.ReadVals(v.ln); n != kit.CeilDiv(v.ln, v.c) || kit.DiffVals("Read", rd, st[v.off:v.off+v.ln]) != "" {
+			s.res.Failf("%s: view %d: Read returned count %d and %s", what, vi, n, kit.DiffVals("contents", rd, st[v.off:v.off+v.ln]))
+			return false
 		}
 		capF := v.cp / v.c
 		var ext kit.AnyBuf
@@ -355,7 +409,7 @@ func FP(c *Case) uint64 {
 	return h.Sum()
 }
 
-var genKinds = []string{"alloc", "slice", "slice", "slice", "appendSample", "appendSample", "append", "append", "write", "set", "set", "drop"}
+var genKinds = []string{"alloc", "slice", "slice", "slice", "appendSample", "appendSample", "append", "append", "write", "writeStriped", "set", "set", "drop"}
 
 func Gen(t *rapid.T) *Case {
 	c := &Case{T: rapid.SampledFrom(Types).Draw(t, "type"), MaxViews: rapid.IntRange(2, 8).Draw(t, "maxViews")}
@@ -386,6 +440,9 @@ func Gen(t *rapid.T) *Case {
 			op.W = rapid.IntRange(0, 7).Draw(t, "w")
 		case "write":
 			op.A = rapid.IntRange(0, 3*maxK).Draw(t, "n")
+		case "writeStriped":
+			op.A = rapid.IntRange(0, maxK+1).Draw(t, "frames")
+			op.B = rapid.IntRange(0, 2).Draw(t, "pattern")
 		case "set":
 			op.A = rapid.IntRange(0, 1000).Draw(t, "i")
 		}
